@@ -12,6 +12,7 @@ Kinds of values:  R real (alpha)   N nat   Z int   B bool   A Arr alpha   A2 Arr
 from __future__ import annotations
 
 import ast
+import re
 import hashlib
 import os
 import textwrap
@@ -1022,6 +1023,13 @@ class FnTranslator:
         else:
             sig = self.sig
             inner = body
+        # kinds are tabulated by parameter NAME; a renamed parameter (harmless refactor) falls back to its POSITION in the table when the arity
+        # is unchanged (a rename combined with a reordering then yields ill-kinded Lean, which fails to build: never a silent mistranslation)
+        table = [(k, v) for k, v in sig.items() if not k.startswith("self.")]
+        if any(p not in sig for p in params) and len(table) == len(params) and not self.cuda_kernel:
+            sig = dict(sig)
+            for p, (_k, v) in zip(params, table):
+                sig.setdefault(p, v)
         for p in params:
             if p not in sig:
                 raise Unsupported(f"{fn.name}: no kind for parameter {p}")
@@ -1078,6 +1086,124 @@ def parse_functions(path: str) -> Dict[str, ast.FunctionDef]:
             n.__dict__["_file"] = path
             out.setdefault(n.name, n)
     return out
+
+
+def inline_temps(fn: ast.FunctionDef, only_line: Optional[int] = None) -> Optional[ast.FunctionDef]:
+    """Normalisation used as a FALLBACK by pattern-based region plug-ins when the source as written is outside their accepted subset: a copy of `fn`
+    in which every single-use temporary of straight-line code is substituted into its use (`t = e; ... use(t)`  ->  `... use(e)`).  A maintainer who
+    splits an expression into named temporaries (the same floating-point operations in the same order) then yields the SAME translation as before.
+    Conservative side conditions (otherwise the statement is left alone, and the plug-in rejects the source as before — never a silent change of
+    meaning): `t` is a plain local assigned exactly once in the whole function and read exactly once, in a simple statement (assignment, augmented
+    assignment, return, expression statement) of the SAME statement list, later than its definition; the defining expression contains no call with an
+    `out=` / `copy=False` keyword and no in-place method; no statement between definition and use assigns, augments, deletes or passes by `out=` any
+    name occurring in the defining expression."""
+    import copy as _copy
+    fn = _copy.deepcopy(fn)
+    params = {a.arg for a in fn.args.args + fn.args.kwonlyargs} | ({fn.args.vararg.arg} if fn.args.vararg else set()) | ({fn.args.kwarg.arg} if fn.args.kwarg else set())
+
+    def stores(node) -> set:
+        out = set()
+        for n in ast.walk(node):
+            if isinstance(n, ast.Name) and isinstance(n.ctx, (ast.Store, ast.Del)):
+                out.add(n.id)
+            elif isinstance(n, ast.AugAssign):
+                for m in ast.walk(n.target):
+                    if isinstance(m, ast.Name):
+                        out.add(m.id)
+            elif isinstance(n, (ast.Subscript, ast.Attribute)) and isinstance(n.ctx, (ast.Store, ast.Del)):
+                for m in ast.walk(n.value):
+                    if isinstance(m, ast.Name):
+                        out.add(m.id)
+            elif isinstance(n, ast.Call):
+                for kw in n.keywords:
+                    if kw.arg == "out" or (kw.arg == "copy" and isinstance(kw.value, ast.Constant) and kw.value.value is False):
+                        for a in n.args[:1] + [kw.value]:
+                            for m in ast.walk(a):
+                                if isinstance(m, ast.Name):
+                                    out.add(m.id)
+        return out
+
+    def impure(e) -> bool:
+        for n in ast.walk(e):
+            if isinstance(n, ast.Call):
+                if any(kw.arg == "out" or (kw.arg == "copy" and isinstance(kw.value, ast.Constant) and kw.value.value is False) for kw in n.keywords):
+                    return True
+                if isinstance(n.func, ast.Attribute) and n.func.attr in ("sort", "fill", "append", "extend", "pop", "update", "resize", "setdefault", "normal",
+                                                                          "standard_normal", "random", "integers"):
+                    return True
+            if isinstance(n, (ast.Yield, ast.YieldFrom, ast.Await, ast.NamedExpr)):
+                return True
+        return False
+
+    def count(name: str, ctx_type) -> int:
+        return sum(1 for n in ast.walk(fn) if isinstance(n, ast.Name) and n.id == name and isinstance(n.ctx, ctx_type))
+
+    class Sub(ast.NodeTransformer):
+        def __init__(self, name, expr):
+            self.name, self.expr = name, expr
+
+        def visit_Name(self, node):
+            if node.id == self.name and isinstance(node.ctx, ast.Load):
+                return _copy.deepcopy(self.expr)
+            return node
+
+    def pass_list(stmts: List[ast.stmt]) -> bool:
+        for i, st in enumerate(stmts):
+            if not (isinstance(st, ast.Assign) and len(st.targets) == 1 and isinstance(st.targets[0], ast.Name)):
+                continue
+            if only_line is not None and getattr(st, "lineno", None) != only_line:
+                continue
+            t = st.targets[0].id
+            if t in params or count(t, ast.Store) != 1 or count(t, ast.Load) != 1 or impure(st.value):
+                continue
+            if any(isinstance(n, ast.AugAssign) and isinstance(n.target, ast.Name) and n.target.id == t for n in ast.walk(fn)):
+                continue
+            free = {n.id for n in ast.walk(st.value) if isinstance(n, ast.Name)}
+            for j in range(i + 1, len(stmts)):
+                u = stmts[j]
+                uses = any(isinstance(n, ast.Name) and n.id == t and isinstance(n.ctx, ast.Load) for n in ast.walk(u))
+                if uses:
+                    if isinstance(u, (ast.Assign, ast.AugAssign, ast.Return, ast.Expr, ast.AnnAssign)):
+                        # the using statement itself must not overwrite a free name BEFORE reading t (augmented target / out= of a free name)
+                        if isinstance(u, ast.AugAssign) and any(isinstance(m, ast.Name) and m.id in free for m in ast.walk(u.target)):
+                            break
+                        stmts[j] = ast.fix_missing_locations(Sub(t, st.value).visit(u))
+                        del stmts[i]
+                        return True
+                    break
+                if stores(u) & (free | {t}):
+                    break
+        for st in stmts:
+            for fld in ("body", "orelse", "finalbody"):
+                sub = getattr(st, fld, None)
+                if isinstance(sub, list) and sub and isinstance(sub[0], ast.stmt) and pass_list(sub):
+                    return True
+        return False
+
+    if only_line is not None:
+        return fn if pass_list(fn.body) else None
+    for _ in range(200):
+        if not pass_list(fn.body):
+            break
+    return fn
+
+
+def with_inlining(fn: ast.FunctionDef, attempt, max_steps: int = 12):
+    """`attempt(fn)` (a plug-in's translation of one function); when it raises Unsupported at `line N` and line N is the definition of a single-use
+    temporary (see inline_temps), that ONE temporary is substituted into its use and the translation is tried again — so a source in which an
+    expression was split into named temporaries translates to what it did before the split.  Anything else is re-raised unchanged."""
+    cur = fn
+    for _ in range(max_steps):
+        try:
+            return attempt(cur)
+        except Unsupported as ex:
+            m = re.search(r"line (\d+)", str(ex))
+            nxt = inline_temps(cur, only_line=int(m.group(1))) if m else None
+            if nxt is None:
+                raise
+            nxt.__dict__["_file"] = fn.__dict__.get("_file")
+            cur = nxt
+    return attempt(cur)
 
 
 HEADER = """/-
